@@ -1,5 +1,5 @@
 import BHS.Props.C11
-import BHS.Props.SqlShape
+import BHS.Props.SqlShape.Add
 open BHS.Props.C11
 #print axioms C11_events
 #print axioms C11_no_event
